@@ -18,6 +18,7 @@ type Val struct {
 	clo  *closureVal
 	lit  *string // string constants keep their text
 	cb   string  // callback parameter modelled as "adds its argument to ghost set cb"
+	uf   string  // function-typed parameter modelled as an uninterpreted pure function
 }
 
 type closureVal struct {
@@ -78,6 +79,8 @@ type Contract struct {
 	Loops       map[int]LoopSpec // loop ordinal (by header block index order) -> spec
 	Callbacks   map[string]string // parameter name -> ghost set name
 	GhostCalls  map[string]string // callee -> ghost set name
+	GhostArg    map[string]string // callee -> name of the recorded parameter (default: first non-receiver)
+	PureFns     []string          // function-typed parameters assumed pure (uninterpreted functions)
 	Reveal      []string
 	Traverses   []Traverse
 	Resets      []Reset
@@ -131,6 +134,7 @@ type Engine struct {
 	opaqueSig   map[string]string // opaque predicate -> declared uninterpreted symbol
 	sumInst     map[string]bool   // ghostsum instances whose defining axioms were emitted
 	derivedCache map[*Contract][2][]Clause
+	derivedSteps map[*Contract]map[int][]Clause
 	bitsSyms    map[string]string // float parameter term -> symbol holding its bit pattern (math.Float32bits)
 }
 
